@@ -371,3 +371,42 @@ def write_evidence(ctx, obligations, discharged, checker_cmd, level="proof"):
     with open(tmp, "w") as fh:
         json.dump(ev, fh, indent=1, default=str)
     os.replace(tmp, os.path.join(d, "%s.json" % ctx.prop))
+
+
+class BatchTie:
+    """Collects (script lines, implementation observations) of many histories
+    and runs them through one Lean driver process; every history must start
+    with a line that resets the model's state."""
+
+    def __init__(self, ctx, model, name, skip=None, flush_at=400):
+        self.ctx, self.model, self.name = ctx, model, name
+        self.skip = skip
+        self.flush_at = flush_at
+        self.pending = []
+
+    def add(self, tag, lines, impl):
+        assert len(lines) == len(impl)
+        self.pending.append((tag, list(lines), list(impl)))
+        if len(self.pending) >= self.flush_at:
+            self.flush()
+
+    def flush(self):
+        if not self.pending:
+            return
+        all_lines = [l for _, ls, _ in self.pending for l in ls]
+        out = lean_batch(self.model, all_lines)
+        pos = 0
+        for tag, ls, impl in self.pending:
+            got = out[pos:pos + len(ls)]
+            pos += len(ls)
+            ok = True
+            for i, (a, b) in enumerate(zip(impl, got)):
+                if a != b and not (self.skip and self.skip(a, b)):
+                    self.ctx.tie_broken.append(
+                        "correspondence:%s %s line %d %r impl=%s lean=%s"
+                        % (self.name, tag, i, ls[i][:80], a[:100], b[:100]))
+                    ok = False
+                    break
+            if ok:
+                self.ctx.traces += len(ls)
+        self.pending = []
